@@ -76,6 +76,7 @@ func swap_BANG(ctx context.Context, a ...MalType) (MalType, error) {
 		if atm.compareAndSet(version, res) {
 			return res, nil
 		}
+		simhook.Yield("atom.swap.retry", atm)
 		if ctx != nil && ctx.Err() != nil {
 			return nil, errors.New("timeout while evaluating expression")
 		}
